@@ -191,6 +191,23 @@ func (x *tree) addNodeLocked(parent, pid *PID) error {
 	return nil
 }
 
+// errParentNotRunning reports that a spawn tried to attach an actor under a
+// parent that is stopping or has stopped.
+var errParentNotRunning = errors.New("parent pid is not running")
+
+// addLiveNode is addNode for spawns: the insertion is refused when the parent is
+// not running. PID.Shutdown raises the stopping flag before freeChildren lists the
+// children under the tree lock, so a child is either inserted before that listing
+// (and stopped with the parent) or refused here.
+func (x *tree) addLiveNode(parent, pid *PID) error {
+	x.mu.Lock()
+	defer x.mu.Unlock()
+	if parent != nil && !parent.IsRunning() {
+		return errParentNotRunning
+	}
+	return x.addNodeLocked(parent, pid)
+}
+
 // attachNodeLocked links an existing pid under the given parent.
 // It reestablishes parent/child and watcher/watchee relationships without
 // creating a new node or changing the tree size.
